@@ -370,7 +370,8 @@ func (w *worker) evaluate(c caseSpec, db *Database, verbose bool) (out outcome) 
 				gmask |= 1 << di
 			}
 		}
-		if ok, _, _, _ := agree(impl, db, &c, rules, edge); ok {
+		// deviant rules mirror the implementation, whose window is [From, To) everywhere: no edge freedom here
+		if ok, _, _, _ := agree(impl, db, &c, rules, false); ok {
 			out.explMasks = append(out.explMasks, gmask)
 		}
 	}
@@ -881,11 +882,17 @@ func adhoc(text string) {
 		name = "A"
 	}
 	db := universalByName(name)
+	wins := universalWindows()
+	if db == nil {
+		if db = smallByName(name); db != nil {
+			wins = smallWindows(db.spans)
+		}
+	}
 	if db == nil {
 		ev.Fatal("unknown database %s", name)
 	}
-	win := universalWindows()[0]
-	for _, w := range universalWindows() {
+	win := wins[0]
+	for _, w := range wins {
 		if w.Name == os.Getenv("C11_WINDOW") {
 			win = w
 		}
